@@ -318,6 +318,13 @@ func runLCInBubble(t *testing.T, sc *LCScenario, ch sim.Chooser) []sim.Ev {
 			if sc.Fail == "replication" {
 				popts = append(popts, provider.WithReplicationFactor(0))
 			}
+			if sc.Fail == "checkinterval" {
+				// a failure late in the constructor: the interval is only rejected by the connectivity checker, after
+				// the provider has started the keystore it owns (none is given here)
+				popts = []provider.Option{provider.WithPeerID(self), provider.WithRouter(env), provider.WithMessageSender(sender),
+					provider.WithSelfAddrs(func() []ma.Multiaddr { return env.addrs }), provider.WithReplicationFactor(2),
+					provider.WithConnectivityCheckOnlineInterval(0)}
+			}
 			inner, err := provider.New(popts...)
 			if err != nil {
 				cerr = err
@@ -591,7 +598,7 @@ var lcComps = map[string][]string{
 	"bufsweep":   {""},
 }
 var lcFails = map[string][]string{
-	"ipfsdht": {"mode", "option"}, "dual": {"lanmode"}, "fullrt": {"pmoption"}, "provmgr": {"option"}, "sweep": {"replication"},
+	"ipfsdht": {"mode", "option"}, "dual": {"lanmode"}, "fullrt": {"pmoption"}, "provmgr": {"option"}, "sweep": {"replication", "checkinterval"},
 }
 
 func genLCScenario(r *rand.Rand) *LCScenario {
